@@ -808,6 +808,36 @@ def np_sort(a, axis=-1, **kw):
     return a[np_argsort(a)]
 
 
+def np_searchsorted(a, v, side='left', sorter=None):
+    a, v = _unlazy(a), _unlazy(v)
+    if _conc(a) and _conc(v):
+        return _delegate('searchsorted', a, v, side=side, sorter=sorter)
+    if sorter is not None:
+        raise Unsupported('searchsorted(sorter=)')
+    a = _as_sarr(a)
+    if a.ndim != 1:
+        raise ValueError('object too deep for desired array')
+    ac = a.cells()
+    # NumPy requires `a` sorted ascending; for a sorted array the insertion point is the number of
+    # elements below (left) / not above (right) the value
+    for x, y in zip(ac[:-1], ac[1:]):
+        if not bool(x <= y):
+            raise Unsupported('searchsorted on an array that is not sorted on this path')
+
+    def one(val):
+        r = 0
+        for x in ac:
+            r = r + ite((x < val) if side == 'left' else (x <= val), 1, 0)
+        return r
+    if isinstance(v, (SVal, int, float, _np.generic)):
+        return one(norm_cell(v))
+    va = _as_sarr(v)
+    o = _np.empty(va.shape, dtype=object)
+    for ix in _np.ndindex(va.shape):
+        o[ix] = one(_raw(va)[ix])
+    return _mk(o, _np.intp)
+
+
 def np_clip(a, a_min=None, a_max=None, out=None, **kw):
     a = _unlazy(a)
     if _conc(a) and _conc(a_min) and _conc(a_max):
